@@ -55,6 +55,7 @@ func main() {
 	}
 	writeConsts(byPath, filepath.Join(outdir, "Consts.lean"))
 	writeSharedWrites(pkgs, filepath.Join(outdir, "SharedWrites.lean"))
+	writeMachines(byPath, filepath.Join(outdir, "Machines.lean"))
 }
 
 // ---------------------------------------------------------------- constants
